@@ -4,6 +4,7 @@ package mon
 
 import (
 	"fmt"
+	"sort"
 	"strings"
 	"sync"
 	"sync/atomic"
@@ -63,9 +64,21 @@ func (m *divMonitor) divideV1(p []uint, q uint, d map[uint]uint) map[uint]uint {
 	if wasNil {
 		d = make(map[uint]uint, len(p))
 	}
+	var before uint
+	for _, v := range d {
+		before += v
+	}
 	m.divideFull(p, q, d, wasNil)
 	if len(p) == 0 {
-		return nil
+		// the v1 dividers return nil for an empty list and touch nothing; a faulty one that did
+		// add something returns the map it added to (the discipline judges what is returned)
+		var after uint
+		for _, v := range d {
+			after += v
+		}
+		if after == before {
+			return nil
+		}
 	}
 	return d
 }
@@ -157,6 +170,25 @@ func (m *divMonitor) divideFull(p []uint, q uint, d map[uint]uint, v1NilDist boo
 				d[key]--
 				break
 			}
+		}
+	case "outside":
+		// the list itself is divided correctly, but a configured priority that is NOT in the
+		// list gets a handler as well (possible only when the list is a strict subset)
+		in := map[uint]bool{}
+		for _, key := range p {
+			in[key] = true
+		}
+		m.mu.Lock()
+		var out []uint
+		for key, ok := range m.allowed {
+			if ok && !in[key] {
+				out = append(out, key)
+			}
+		}
+		m.mu.Unlock()
+		if len(out) > 0 {
+			sort.Slice(out, func(i, j int) bool { return out[i] > out[j] })
+			d[out[int(k)%len(out)]]++
 		}
 	}
 	var totalAfter uint
